@@ -76,9 +76,19 @@ def run(ctx):
             return None
         return opaque
 
+    # the counters may be fields of IoRead itself (no wrapper around io::Bytes): a field read that nothing has
+    # written yet on the path is the counter as it was before the pull
+    own_counters = set(common.fields_of_type(lexpr, "parse::read::IoRead", lambda ty: ty == "usize"))
+
+    def counter(x):
+        if isinstance(x, Opq) and x.root == "self" and len(x.path) == 1 and x.path[0] in own_counters:
+            accessors.add(x.path[0])
+            return "<iter.%s@before-next>" % x.path[0]
+        return repr(x)
+
     def fields(v):
         if isinstance(v, Adt) and v.adt.endswith("Position"):
-            return tuple(repr(x) for x in v.fields)
+            return tuple(counter(x) for x in v.fields)
         if isinstance(v, Opq) and v.root.startswith("iter."):
             return (repr(v),)         # one accessor that returns the whole position
         return None
@@ -260,7 +270,7 @@ def column_unit(ctx, lexpr):
     other byte."""
     r = ctx.rule("R-COLUMN-UNIT", "the stream's and the slice's line/column counters treat the same bytes specially "
                                   "(only LF) and advance for every other byte value")
-    it = lexpr.fn("<parse::iter::LineColIterator<I> as std::iter::Iterator>::next")
+    it = common.stream_stepper(lexpr)
     sl = lexpr.fn("parse::read::SliceRead::<'a>::position_of_index")
     if it is None or sl is None:
         r.anchor_missing("LineColIterator::next / SliceRead::position_of_index")
@@ -272,7 +282,8 @@ def column_unit(ctx, lexpr):
                 return ("value", Adt(OPT, 1, [Adt(RES, 0, [b])]))
             return None
 
-        S = sim.Sim([lexpr], hooks={"call": hook}, inline=lambda a, c: c.crate == lexpr.name and c.file.endswith("parse/iter.rs"))
+        S = sim.Sim([lexpr], hooks={"call": hook}, inline=lambda a, c: c.crate == lexpr.name and c.file == it.file
+                    and c.kind != "closure" and not c.impl_trait and c.self_ty == it.self_ty)
         outs = set()
         for p in S.run(it):
             if p.end != "return":
